@@ -14,9 +14,7 @@ shows that ℂ with the real square roots is such an instance for every `d ≥ 1
 Notation: `basis S d a` is element `a` of `all_gellmann_matrix(d)` (order sym ++ antisym ++ diag ++ [I]) as a Mathlib
 matrix; `coef S d A a` is entry `a` of `matrix_to_gellmann_basis(A)`.
 -/
-import NumqiProofs.GellmannIso
-import Mathlib.Analysis.SpecialFunctions.Pow.Real
-import Mathlib.Data.Complex.Basic
+import NumqiProofs.GellmannComplex
 import Mathlib.LinearAlgebra.Matrix.Kronecker
 
 namespace Numqi.C16
@@ -125,38 +123,8 @@ theorem tensor2_orthogonal (S : Scalars R) (hS : S.Valid d) (hd : 1 ≤ d) {a b 
 
 /-! ### non-vacuity: ℂ with the real square roots is a valid instance for every `d ≥ 1` -/
 
-/-- the exact scalars over ℂ -/
-noncomputable def complexScalars (d : Nat) : Scalars ℂ where
-  half := 1 / 2
-  I := Complex.I
-  cD := fun k => ((Real.sqrt (2 / ((k : ℝ) * ((k : ℝ) + 1))) : ℝ) : ℂ)
-  cI := ((Real.sqrt (2 / (d : ℝ)) : ℝ) : ℂ)
-  aD := fun k => 1 / 2 * ((Real.sqrt (2 / ((k : ℝ) * ((k : ℝ) + 1))) : ℝ) : ℂ)
-  aI := 1 / 2 * ((Real.sqrt (2 / (d : ℝ)) : ℝ) : ℂ)
-  invD := 1 / (d : ℂ)
-
-theorem exists_valid_complex (hd : 1 ≤ d) : (complexScalars d).Valid d := by
-  have hd0 : (d : ℝ) ≠ 0 := by positivity
-  refine ⟨by norm_num [complexScalars], by simp [complexScalars], by simp [complexScalars], by simp [complexScalars], ?_, ?_, ?_, ?_,
-    fun k => rfl, rfl, ?_⟩
-  · intro k hk _
-    have hk0 : (0 : ℝ) < (k : ℝ) * ((k : ℝ) + 1) := by positivity
-    simp only [complexScalars]
-    rw [← Complex.ofReal_mul, Real.mul_self_sqrt (by positivity)]
-    have hk1 : (k : ℂ) ≠ 0 := by exact_mod_cast (by omega : k ≠ 0)
-    have hk2 : (k : ℂ) + 1 ≠ 0 := by exact_mod_cast (by omega : k + 1 ≠ 0)
-    push_cast
-    field_simp
-  · intro k; simp [complexScalars]
-  · simp only [complexScalars]
-    rw [← Complex.ofReal_mul, Real.mul_self_sqrt (by positivity)]
-    have hdc : (d : ℂ) ≠ 0 := by exact_mod_cast (by omega : d ≠ 0)
-    push_cast
-    field_simp
-  · simp [complexScalars]
-  · simp only [complexScalars]
-    have : (d : ℂ) ≠ 0 := by exact_mod_cast (by omega : d ≠ 0)
-    field_simp
+/-- ℂ with the real square roots (`Numqi.Gellmann.complexScalars`) satisfies `Valid` for every `d ≥ 1`. -/
+theorem exists_valid_complex (hd : 1 ≤ d) : (complexScalars d).Valid d := complexScalars_valid hd
 
 example : ∃ S : Scalars ℂ, S.Valid 3 := ⟨complexScalars 3, exists_valid_complex (by norm_num)⟩
 
